@@ -5,6 +5,7 @@ import (
 	"strings"
 	"time"
 
+	"github.com/nyaruka/gocommon/urns"
 	"github.com/nyaruka/goflow/contactql"
 	"github.com/nyaruka/goflow/envs"
 	"github.com/nyaruka/goflow/flows"
@@ -13,7 +14,7 @@ import (
 
 // Case is one executable case and at the same time the replay artefact.
 type Case struct {
-	Kind    string  `json:"kind"` // cond | number | date | bool | simplify | risky
+	Kind    string  `json:"kind"` // cond | number | date | bool | simplify | regroup | risky
 	Env     EnvSpec `json:"env"`
 	Contact Profile `json:"contact"`
 	// cond, risky: the query text
@@ -33,6 +34,10 @@ type Case struct {
 	Atoms []Atom `json:"atoms,omitempty"`
 	Tree  *Tree  `json:"tree,omitempty"`
 	Style string `json:"style,omitempty"` // bool: upper | lower | implicit
+	// bool: how the atoms are written. "" = every URN and field atom with its urns. / fields. prefix;
+	// "bare" = without the prefix wherever the bare key still names that property (a URN scheme always
+	// does; a field does unless its key is also an attribute name or a URN scheme)
+	Spelling string `json:"spelling,omitempty"`
 }
 
 // Atom is an atomic condition given both as constructor arguments and (derived) as text.
@@ -47,11 +52,109 @@ func (a Atom) cond() *contactql.Condition {
 	return contactql.NewCondition(contactql.PropertyType(a.PT), a.Key, contactql.Operator(a.Op), a.Val)
 }
 
+var attributeNames = map[string]bool{
+	contactql.AttributeUUID: true, contactql.AttributeID: true, contactql.AttributeName: true, contactql.AttributeStatus: true,
+	contactql.AttributeLanguage: true, contactql.AttributeURN: true, contactql.AttributeGroup: true, contactql.AttributeFlow: true,
+	contactql.AttributeHistory: true, contactql.AttributeTickets: true, contactql.AttributeCreatedOn: true, contactql.AttributeLastSeenOn: true,
+}
+
+// text writes the atom as query text. The explicit spelling is the library's own Condition.String();
+// the bare spelling drops the urns. / fields. prefix where the bare key still names the same property.
+func (a Atom) text(spelling string) string {
+	t := a.cond().String()
+	if spelling != "bare" {
+		return t
+	}
+	switch {
+	case a.PT == "urn" && !attributeNames[a.Key]:
+		return strings.TrimPrefix(t, "urns.")
+	case a.PT == "field" && !attributeNames[a.Key] && !urns.IsValidScheme(a.Key):
+		return strings.TrimPrefix(t, "fields.")
+	}
+	return t
+}
+
+// sameKeyPairs lists the pairs of atoms that differ in the type of their property only (an attribute
+// or URN scheme and a field of the same key, same operator, same value).
+func sameKeyPairs(atoms []Atom) [][2]int {
+	var ps [][2]int
+	for i := range atoms {
+		for j := i + 1; j < len(atoms); j++ {
+			if atoms[i].PT != atoms[j].PT && atoms[i].Key == atoms[j].Key && atoms[i].Op == atoms[j].Op && atoms[i].Val == atoms[j].Val {
+				ps = append(ps, [2]int{i, j})
+			}
+		}
+	}
+	return ps
+}
+
 // Tree is a boolean structure over atom indexes.
 type Tree struct {
 	Op   string  `json:"op,omitempty"` // and | or ; "" for a leaf
 	Kids []*Tree `json:"kids,omitempty"`
 	Atom int     `json:"atom"`
+}
+
+// operands returns the atoms that are operands of this combination: direct = its leaf children,
+// flat = also the leaves of nested combinations with the same operator and nested groups that repeat
+// one condition (what flattening makes siblings).
+func (t *Tree) operands() (direct, flat map[int]bool) {
+	direct, flat = map[int]bool{}, map[int]bool{}
+	var walk func(n *Tree, top bool)
+	walk = func(n *Tree, top bool) {
+		for _, k := range n.Kids {
+			switch {
+			case k.Op == "":
+				flat[k.Atom] = true
+				if top {
+					direct[k.Atom] = true
+				}
+			case k.Op == t.Op:
+				walk(k, false)
+			case k.only() >= 0:
+				flat[k.only()] = true // a group that repeats one condition stands for that condition
+			}
+		}
+	}
+	walk(t, true)
+	return
+}
+
+// only returns the atom when every leaf below the node is that one atom, else -1.
+func (t *Tree) only() int {
+	if t.Op == "" {
+		return t.Atom
+	}
+	a := -1
+	for i, k := range t.Kids {
+		ka := k.only()
+		if ka < 0 || (i > 0 && ka != a) {
+			return -1
+		}
+		a = ka
+	}
+	return a
+}
+
+// pairFacts says how the tree brings two same-keyed atoms together: as direct operands of one
+// combination, as operands of one combination only once nested same-operator groups are flattened,
+// or only in different combinations.
+func (t *Tree) pairFacts(pairs [][2]int, facts map[string]bool) {
+	if t.Op == "" {
+		return
+	}
+	direct, flat := t.operands()
+	for _, p := range pairs {
+		switch {
+		case direct[p[0]] && direct[p[1]]:
+			facts["direct-operands-of-one-"+t.Op] = true
+		case flat[p[0]] && flat[p[1]]:
+			facts["operands-of-one-"+t.Op+"-after-flattening"] = true
+		}
+	}
+	for _, k := range t.Kids {
+		k.pairFacts(pairs, facts)
+	}
 }
 
 func leaf(i int) *Tree                 { return &Tree{Atom: i} }
@@ -228,6 +331,15 @@ func checkCond(cs *Case, o *obs) []Problem {
 		return []Problem{panicProblem("evaluate", cls, op, pnc, cs)}
 	}
 	o.outcome(fmt.Sprintf("cond:%s:%s:%t", cls, op, res))
+	if cond.PropertyType() == contactql.PropertyTypeField && cs.Contact.odd(cond.PropertyKey()) {
+		o.fact("cond:stored-value-without-typed-part:" + cls)
+		if cond.Value() != "" {
+			o.fact("cond:stored-value-without-typed-part:compared-with-a-value:" + cls)
+		}
+	}
+	if cond.PropertyType() == contactql.PropertyTypeField && (attributeNames[cond.PropertyKey()] || urns.IsValidScheme(cond.PropertyKey())) {
+		o.fact("cond:field-keyed-like-attribute-or-scheme:" + cond.PropertyKey())
+	}
 	o.fact("admitted-op:" + op)
 	o.fact("admitted-prop:" + cls)
 	if res {
@@ -360,7 +472,7 @@ func numberPresent(cs *Case) bool {
 	if strings.Contains(cs.Prop, "tickets") {
 		return true // tickets is always present (0 or 1)
 	}
-	return cs.Contact.Age != ""
+	return cs.Contact.Age != "" && !cs.Contact.odd("age")
 }
 
 func checkNumber(cs *Case, o *obs) []Problem {
@@ -371,6 +483,9 @@ func checkNumber(cs *Case, o *obs) []Problem {
 	}
 	if !numberPresent(cs) {
 		o.fact("number:absent-value")
+		if cs.Contact.odd("age") {
+			o.fact("number:stored-value-without-number-part")
+		}
 		return ps
 	}
 	for _, op := range []string{"<", "=", ">"} {
@@ -393,6 +508,9 @@ func dateInstant(cs *Case) (time.Time, bool) {
 		s = cs.Contact.LastSeen
 	default:
 		s = cs.Contact.Joined
+		if cs.Contact.odd("joined") {
+			s = ""
+		}
 	}
 	if s == "" {
 		return time.Time{}, false
@@ -413,6 +531,9 @@ func checkDate(cs *Case, o *obs) []Problem {
 	t, present := dateInstant(cs)
 	if !present {
 		o.fact("date:absent-value")
+		if cs.Contact.odd("joined") && strings.Contains(cs.Prop, "joined") {
+			o.fact("date:stored-value-without-datetime-part")
+		}
 		return ps
 	}
 	ps = append(ps, relations("date", six, cs)...)
@@ -580,10 +701,13 @@ func atomResults(cs *Case, o *obs) ([]bool, []string, []Problem) {
 	vals := make([]bool, len(cs.Atoms))
 	texts := make([]string, len(cs.Atoms))
 	for i, a := range cs.Atoms {
-		texts[i] = a.cond().String()
+		texts[i] = a.text(cs.Spelling)
 		p := parse(cs.Env, env, texts[i])
 		if p.pnc != "" || p.err != nil {
 			return nil, nil, []Problem{{Key: "harness:atom-does-not-parse", What: fmt.Sprintf("%q: %v %s", texts[i], p.err, p.pnc)}}
+		}
+		if got, isCond := p.q.Root().(*contactql.Condition); !isCond || got.String() != a.cond().String() {
+			return nil, nil, []Problem{{Key: "harness:atom-as-written-is-another-condition", What: fmt.Sprintf("%q parses to %q, meant %q", texts[i], p.q.String(), a.cond().String())}}
 		}
 		res, pnc := eval(env, p.q, contact, o)
 		if pnc != "" {
@@ -631,11 +755,25 @@ func checkBool(cs *Case, o *obs) []Problem {
 	want := cs.Tree.ref(vals)
 	o.fact("bool:assignment:" + assignment(vals))
 	o.fact("bool:style:" + cs.Style)
+	if cs.Spelling != "" {
+		o.fact("bool:spelling:" + cs.Spelling)
+	}
+	sameKey := ""
+	if pairs := sameKeyPairs(cs.Atoms); len(pairs) > 0 {
+		pf := map[string]bool{}
+		cs.Tree.pairFacts(pairs, pf)
+		for f := range pf {
+			o.fact("bool:same-keyed-properties:" + f)
+		}
+		if len(pf) > 0 {
+			sameKey = ":same-keyed-properties-in-one-combination"
+		}
+	}
 	o.fact(fmt.Sprintf("bool:result:%t", res))
 	o.outcome(fmt.Sprintf("bool:%s:%t", cs.Tree.Op, res))
 	if res != want {
 		return []Problem{{
-			Key:  fmt.Sprintf("bool:not-compositional:root=%s:depth=%d:style=%s:got=%t", cs.Tree.Op, depth(cs.Tree), cs.Style, res),
+			Key:  fmt.Sprintf("bool:not-compositional:root=%s:depth=%d:style=%s:got=%t%s", cs.Tree.Op, depth(cs.Tree), cs.Style, res, sameKey),
 			What: fmt.Sprintf("env=%s query=%q (structure %s) evaluates to %t but its operands evaluate to %v (atoms %q), so conjunction/disjunction gives %t\ncontact=%s", cs.Env, cs.Query, cs.Tree, res, vals, texts, want, cs.Contact.key()),
 		}}
 	}
@@ -718,6 +856,17 @@ func checkSimplify(cs *Case, o *obs) []Problem {
 		o.fact("simplify:kept-structure")
 	}
 	o.fact("simplify:assignment:" + assignment(vals))
+	sameKey := ""
+	if pairs := sameKeyPairs(cs.Atoms); len(pairs) > 0 {
+		pf := map[string]bool{}
+		cs.Tree.pairFacts(pairs, pf)
+		for f := range pf {
+			o.fact("simplify:same-keyed-properties:" + f)
+		}
+		if len(pf) > 0 {
+			sameKey = ":same-keyed-properties-in-one-combination"
+		}
+	}
 	o.outcome("simplify:" + shapeOf(simp))
 	got, err := refNode(simp, byText)
 	if err != nil {
@@ -725,7 +874,7 @@ func checkSimplify(cs *Case, o *obs) []Problem {
 	}
 	if got != want {
 		return []Problem{{
-			Key:  fmt.Sprintf("simplify:changes-result:root=%s:simplified=%s", cs.Tree.Op, rootOp(simp)),
+			Key:  fmt.Sprintf("simplify:changes-result:root=%s:simplified=%s%s", cs.Tree.Op, rootOp(simp), sameKey),
 			What: fmt.Sprintf("%s (atoms %q = %v) means %t, but Simplify() gives %q which means %t", cs.Tree, texts, vals, want, contactql.Stringify(simp), got),
 		}}
 	}
@@ -743,11 +892,102 @@ func checkSimplify(cs *Case, o *obs) []Problem {
 	}
 	if res != want {
 		return []Problem{{
-			Key:  fmt.Sprintf("simplify:parsed-query-result-differs:root=%s:got=%t", cs.Tree.Op, res),
+			Key:  fmt.Sprintf("simplify:parsed-query-result-differs:root=%s:got=%t%s", cs.Tree.Op, res, sameKey),
 			What: fmt.Sprintf("env=%s %s written as %q parses (simplified) to %q and evaluates to %t; operands %v give %t\ncontact=%s", cs.Env, cs.Tree, cs.Query, p.q.String(), res, vals, want, cs.Contact.key()),
 		}}
 	}
 	return nil
+}
+
+// ---- kind "regroup": the same evaluation reached through Contact.ReevaluateQueryBasedGroups ----
+
+// groupModel: for the query based groups of the world whose queries consist of empty-valued =/!=
+// only, membership follows from the statement alone (absence/presence, conjunction/disjunction).
+var groupModel = map[string]func(p Profile) bool{
+	"No language": func(p Profile) bool {
+		_, a := p.present(contactql.PropertyTypeAttribute, "language")
+		_, f := p.present(contactql.PropertyTypeField, "language")
+		return !a && !f
+	},
+	"Tweets": func(p Profile) bool {
+		_, u := p.present(contactql.PropertyTypeURN, "twitter")
+		_, f := p.present(contactql.PropertyTypeField, "twitter")
+		return u || f
+	},
+}
+
+var groupParseEnv = EnvSpec{TZ: "UTC", DF: "YYYY-MM-DD"} // what the session assets of the world are built with
+
+func checkRegroup(cs *Case, o *obs) []Problem {
+	env := cs.Env.build()
+	sa, err := sessionAssets()
+	if err != nil {
+		return []Problem{{Key: "harness:assets", What: err.Error()}}
+	}
+	orig, err := cs.Contact.contact()
+	if err != nil {
+		return []Problem{{Key: "harness:contact", What: err.Error()}}
+	}
+	contact := orig.Clone() // re-evaluation changes the contact's group list
+	o.evals++
+	if pnc := mc.Guard(func() { contact.ReevaluateQueryBasedGroups(env) }); pnc != "" {
+		return []Problem{{
+			Key:  "panic:regroup:" + mc.PanicSite(pnc),
+			What: fmt.Sprintf("Contact.ReevaluateQueryBasedGroups panicked: env=%s contact=%s\n%s", cs.Env, cs.Contact.key(), pnc),
+		}}
+	}
+	o.admitted = true
+	active := cs.Contact.Status == "" || cs.Contact.Status == "active"
+	var ps []Problem
+	nQuery := 0
+	for _, g := range sa.Groups().All() {
+		if !g.UsesQuery() {
+			continue
+		}
+		nQuery++
+		got := contact.Groups().FindByUUID(g.UUID()) != nil
+		o.fact(fmt.Sprintf("regroup:member=%t", got))
+		o.outcome(fmt.Sprintf("regroup:%s:%t", g.Name(), got))
+		if !active {
+			continue // what membership a blocked contact gets is not this property's business: totality only
+		}
+		p := parse(groupParseEnv, groupParseEnv.build(), g.Query())
+		if p.pnc != "" || p.err != nil {
+			ps = append(ps, Problem{Key: "harness:group-query-does-not-parse", What: fmt.Sprintf("%q: %v %s", g.Query(), p.err, p.pnc)})
+			continue
+		}
+		res, pnc := eval(env, p.q, orig, o)
+		if pnc != "" {
+			sub := *cs
+			sub.Query = g.Query()
+			ps = append(ps, panicProblem("evaluate", "group-query", "", pnc, &sub))
+			continue
+		}
+		if want := res; got != want {
+			ps = append(ps, Problem{
+				Key:  fmt.Sprintf("regroup:membership-is-not-the-query-result:member=%t", got),
+				What: fmt.Sprintf("env=%s group %q (query %q): the contact is member=%t after re-evaluation but the query evaluates to %t on the contact %s", cs.Env, g.Name(), g.Query(), got, res, cs.Contact.key()),
+			})
+		}
+		if model := groupModel[g.Name()]; model != nil {
+			o.fact("regroup:existence-only-group")
+			if want := model(cs.Contact); got != want {
+				ps = append(ps, Problem{
+					Key:  fmt.Sprintf("regroup:existence-only-query:member=%t", got),
+					What: fmt.Sprintf("env=%s group %q (query %q, empty-valued conditions only): absence/presence of the properties and AND/OR give member=%t, re-evaluation gives %t; contact %s", cs.Env, g.Name(), g.Query(), want, got, cs.Contact.key()),
+				})
+			}
+		}
+	}
+	if nQuery == 0 {
+		ps = append(ps, Problem{Key: "harness:no-query-based-groups", What: "the world has no query based group"})
+	}
+	for _, k := range typedFieldKeys {
+		if cs.Contact.odd(k) {
+			o.fact("regroup:stored-value-without-typed-part")
+		}
+	}
+	return ps
 }
 
 func rootOp(n contactql.QueryNode) string {
@@ -772,6 +1012,8 @@ func check(cs *Case, o *obs) []Problem {
 		return checkBool(cs, o)
 	case "simplify":
 		return checkSimplify(cs, o)
+	case "regroup":
+		return checkRegroup(cs, o)
 	}
 	return []Problem{{Key: "harness:unknown-case-kind:" + cs.Kind, What: cs.Kind}}
 }
